@@ -308,6 +308,24 @@ def check_hier(spec):
         return usertypes.instantiate(cls, allf, {
             k: (build(v) if isinstance(v, list) else v) for k, v in vals.items()
             if k in allf})
+    # instances of the ancestor classes are hashed and compared before the class under
+    # test is used at all: what == and hash decide per class must not be inherited from
+    # whichever class happened to be used first
+    if spec.get("hash_first", True):
+        for pcls, pf, _k in levels[:i]:
+            try:
+                usertypes.NOINIT_VALUES["serial"] = 1
+                mk = lambda: usertypes.instantiate(pcls, pf, {  # noqa: E731
+                    k: (build(v) if isinstance(v, list) else v)
+                    for k, v in spec["vals_a"].items() if k in pf})
+                anc, anc2 = mk(), mk()
+                hash(anc)
+                anc == anc2
+                anc != anc2
+            except Exception:
+                pass    # judged when that level is the one under test
+        if i:
+            res.label("ancestor-classes-used-first")
     try:
         usertypes.NOINIT_VALUES["serial"] = 1
         a, a2 = inst(spec["vals_a"]), inst(spec["vals_a"])
